@@ -362,7 +362,7 @@ fn part_iv(ctx: &mut Ctx) {
                 crate::explore::seqs_exact(ATOMS.len(), ar, |idx| {
                     let args: Vec<&str> = idx.iter().map(|i| ATOMS[*i]).collect();
                     // a count beyond the property's bound of 10^4 items is resource exhaustion where the count IS the size asked for
-                    if f.name == "range" && args[0] == "9007199254740992" {
+                    if f.name == "range" && (args[0] == "9007199254740992" || args[0] == "18446744073709551615") {
                         return;
                     }
                     batch.push(format!("({} {})", name, args.join(" ")));
